@@ -189,7 +189,8 @@ def oracle(disp, plan, ops, line):
     rets = [s[0] for s in steps]
     if any(r.startswith('EXC') for r in rets):
         i = next(i for i, r in enumerate(rets) if r.startswith('EXC'))
-        return 'C10', '%s raised %s' % (ops[i], rets[i])
+        # an operation that observes the child's end and raises instead of recording its fate breaks C09 as much as C10
+        return '*', '%s raised %s (object afterwards: %s)' % (ops[i], rets[i], steps[i][1])
     first = None
     for i, f in enumerate(fields):
         if f['t'] == 'true':
@@ -205,6 +206,8 @@ def oracle(disp, plan, ops, line):
         elif first is not None:
             return 'C09', 'terminated went back to false after %s' % ops[i]
     for i, (op, r) in enumerate(zip(ops, rets)):
+        if op == 'wait' and fields[i]['t'] != 'true':
+            return 'C09', 'wait() returned %s but the object does not know the child\'s fate afterwards (%s)' % (r, steps[i][1])
         if op == 'alive' and r == 'true' and fields[i]['t'] == 'true':
             return 'C10', 'isalive() returned True for a child already reported terminated'
         if op.startswith('close'):
@@ -332,7 +335,10 @@ def sweep_c09(ctx, sigs):
     """every exit code / terminating signal x every way of observing the death (pty); PopenSpawn.wait; run(withexitstatus)"""
     rng = ctx.rng
     codes = [0, 1, 2, 126, 127, 128, 255] + [rng.randrange(3, 255) for _ in range(6 if ctx.quick() else 0)] if ctx.quick() else list(range(256))
-    sigsv = [1, 2, 3, 9, 15] if ctx.quick() else [1, 2, 3, 4, 6, 8, 9, 10, 11, 12, 13, 14, 15]
+    # every signal whose default action ends the process, the real-time range (no symbolic names) included
+    TERMINATING = [x for x in range(1, 65) if x not in (17, 18, 19, 20, 21, 22, 23, 28, 32, 33)]
+    sigsv = ([1, 2, 3, 9, 15] + rng.sample([x for x in TERMINATING if 34 <= x], 2) + rng.sample([x for x in TERMINATING if x < 34 and x not in (1, 2, 3, 9, 15)], 2)) \
+        if ctx.quick() else TERMINATING
     paths = [['ends', 'alive', 'alive'], ['wait', 'alive'], ['ends', 'close:1', 'alive', 'wait'], ['ends', 'term:0', 'alive'], ['ends', 'alive', 'close:0', 'wait', 'alive']]
     cases = []
     for i, c in enumerate(codes):
@@ -353,7 +359,7 @@ def popen_and_run(ctx, sigs):
         out, st = pexpect.run('%s -c "import sys; print(1); sys.exit(%d)"' % (common.PY, code), withexitstatus=True)
         if st != code:
             common.report(ctx, 'run/exitstatus', 'run(withexitstatus=True) returned %r for exit code %d' % (st, code), dict(code=code))
-    for s in ([9, 15] if ctx.quick() else [1, 2, 3, 6, 9, 13, 15]):
+    for s in ([9, 15, ctx.rng.randrange(34, 65)] if ctx.quick() else [1, 2, 3, 6, 9, 13, 15, 34, 40, 55, 64]):
         p = popen_spawn.PopenSpawn([common.PY, '-c', 'import os,signal\ntry: signal.signal(%d, signal.SIG_DFL)\nexcept OSError: pass\nos.kill(os.getpid(), %d)' % (s, s)])
         r = p.wait()
         sigs.add(('popen-wait-signal', s))
@@ -515,7 +521,11 @@ def run(ctx):
     cases = [('hi', ('e', 3), ['close:0', 'send', 'read', 'close:1', 'alive']),          # defect #9 (fixed)
              ('', ('e', 7), ['ends', 'alive', 'alive', 'close:1', 'wait']),
              ('s', ('e', 0), ['alive', 'close:1', 'alive']),
-             ('his', ('e', 0), ['term:0', 'term:1', 'alive'])]
+             ('his', ('e', 0), ['term:0', 'term:1', 'alive']),
+             # a polite close() that the child survives, the child's own end later, observed by wait() first
+             ('hi', ('e', 7), ['close:0', 'ends', 'wait', 'alive']),
+             ('hi', ('s', 9), ['close:0', 'ends', 'wait', 'wait']),
+             ('hi', ('e', 0), ['close:0', 'close:0', 'ends', 'wait'])]
     if prop == 'C09':
         cases += sweep_c09(ctx, sigs)
     disps = ['', 'h', 'i', 'hi', 's', 'hs', 'his']
@@ -530,7 +540,7 @@ def run(ctx):
     n = 40 if ctx.quick() else 1500
     for _ in range(n):
         d = rng.choice(disps)
-        plan = ('e', rng.randrange(0, 256)) if rng.random() < 0.7 else ('s', rng.choice([1, 2, 3, 9, 15]))
+        plan = ('e', rng.randrange(0, 256)) if rng.random() < 0.7 else ('s', rng.choice([1, 2, 3, 9, 15, 15, 31, 34, 40, 64]))
         ops = []
         for _ in range(rng.randrange(1, 7)):
             o = rng.choice(OPS)
@@ -556,16 +566,16 @@ def run(ctx):
                 continue
         real = run_real(d, plan, ops)
         bad = oracle(d, plan, ops, real)
-        if (bad and bad[0] == prop) or (mo is not None and real != mo):
+        if (bad and bad[0] in (prop, '*')) or (mo is not None and real != mo):
             # real processes on a loaded machine: a signal may take longer than 40 ms to show its effect.  Re-run patiently;
             # only what reproduces is judged.
             for patience in (10, 25):
                 real = run_real(d, plan, ops, patience=patience)
                 bad = oracle(d, plan, ops, real)
-                if not ((bad and bad[0] == prop) or (mo is not None and real != mo)):
+                if not ((bad and bad[0] in (prop, '*')) or (mo is not None and real != mo)):
                     break
         sigs.add((d, tuple(o.split(':')[0] for o in ops), real.split(' # ')[1]))
-        if bad and bad[0] == prop:
+        if bad and bad[0] in (prop, '*'):
             common.report(ctx, 'life/%s/%s' % (d or 'normal', '+'.join(o.split(':')[0] for o in ops)[:40]),
                           'child(%s, plan %s) ops %s: %s' % (d or 'normal', plan, ops, bad[1]),
                           dict(disposition=d, plan=list(plan), ops=ops, real=real, how='harness/props/lifecycle.py run_real(disp, plan, ops)'))
